@@ -53,14 +53,15 @@ func runC10(c *core.Ctx) {
 		cfg.Entries = []int{wl.EWrite1, wl.EWritev, wl.ECtxWrite1, wl.ECtxWritev, wl.EWriter, wl.EReadFrom, wl.EReadFromEOF}
 		switch rng.Intn(3) {
 		case 0:
-			cfg.Sizes = []int{16, 17, 100, 500, 1023, 1024} // ReadFrom-safe: single chunk
+			cfg.Sizes = []int{0, 16, 17, 100, 500, 1023, 1024} // ReadFrom-safe: single chunk
 		case 1:
-			cfg.Sizes = []int{16, 1024, 1025, 2048, 4096, 4097, 8192, 65536, 65537}
+			cfg.Sizes = []int{0, 16, 1024, 1025, 2048, 4096, 4097, 8192, 65536, 65537}
 			cfg.Entries = cfg.Entries[:5]
 			cfg.PerWriter = 3 + rng.Intn(5)
 		default:
-			cfg.Sizes = []int{16, 17, 100, 1023, 1024, 1025, 2047, 2048, 2049}
+			cfg.Sizes = []int{0, 0, 16, 17, 100, 1023, 1024, 1025, 2047, 2048, 2049}
 			cfg.Entries = cfg.Entries[:5]
+			cfg.ScratchCap = []int{0, 4096, 4096, 8192}[rng.Intn(4)] // a scratch buffer whose capacity is a pool size class
 		}
 		// delays that keep payloads in the queue / batch while buffers are overwritten
 		pts := []string{"sBat", "tV0", "sWr", "sRec", "sLoop", "x1"}
